@@ -39,6 +39,17 @@ class Obligation:
         return self.smt2
 
 
+def _fp_to_float(txt):
+    """'1.25*(2**-3)' / '-1.5' -> float (exact: Float64 numerals are dyadic rationals)."""
+    from fractions import Fraction
+    from decimal import Decimal
+    txt = txt.strip()
+    if '*(2**' in txt:
+        mant, ex = txt.split('*(2**')
+        return float(Fraction(Decimal(mant)) * Fraction(2) ** int(ex.rstrip(')')))
+    return float(Fraction(Decimal(txt)))
+
+
 def _model_dict(m):
     out = {}
     for d in m.decls():
@@ -50,9 +61,10 @@ def _model_dict(m):
                         out[d.name()] = 'nan'
                     elif v.isInf():
                         out[d.name()] = '-inf' if v.isNegative() else 'inf'
+                    elif v.isZero():
+                        out[d.name()] = '-0.0' if v.isNegative() else '0.0'
                     else:
-                        fr = z3.simplify(z3.fpToReal(v)).as_fraction()
-                        out[d.name()] = repr(float(fr)) if not (v.isZero() and v.isNegative()) else '-0.0'
+                        out[d.name()] = repr(_fp_to_float(str(v)))
                 else:
                     out[d.name()] = str(v)
             else:
@@ -183,20 +195,80 @@ def _ground_int_terms(asserts, limit=10):
     return terms[:limit]
 
 
+def _skolemize_neg_goal(neg, ctx):
+    """Not(ForAll xs. P)  ->  Not(P[xs := fresh constants]);   other shapes are returned unchanged."""
+    if z3.is_not(neg):
+        q = neg.arg(0)
+        if z3.is_quantifier(q) and q.is_forall():
+            consts = [z3.Const('sk!%d_%s' % (i, q.var_name(i)), q.var_sort(i)) for i in range(q.num_vars())]
+            body = z3.substitute_vars(q.body(), *reversed(consts))
+            return z3.Not(body), consts
+    return neg, []
+
+
+def _ground_terms(asserts, sort, limit=12):
+    out = {}
+    seen = set()
+    stack = list(asserts)
+    while stack:
+        x = stack.pop()
+        i = x.get_id()
+        if i in seen:
+            continue
+        seen.add(i)
+        if z3.is_quantifier(x):
+            continue
+        if z3.is_app(x):
+            k = x.decl().kind()
+            uf = k == z3.Z3_OP_UNINTERPRETED and x.num_args() > 0
+            sel = k in (z3.Z3_OP_SELECT, z3.Z3_OP_STORE)
+            for j, c in enumerate(x.children()):
+                if (uf or sel) and c.sort().eq(sort) and not z3.is_int_value(c) and not z3.is_quantifier(c):
+                    if not (sel and j == 0):
+                        out[c.get_id()] = c
+                stack.append(c)
+            if k == z3.Z3_OP_UNINTERPRETED and x.num_args() == 0 and x.sort().eq(sort):
+                out[x.get_id()] = x
+    terms = sorted(out.values(), key=lambda t: t.get_id())
+    return terms[:limit]
+
+
 def _instantiated_sat(asserts, timeout_ms):
-    """Search a counter-model with every top-level universally quantified hypothesis over one Int variable replaced
-    by its instances at the ground Int index terms of the obligation (other quantified hypotheses dropped)."""
+    """Counter-model search when the solver cannot decide the quantified query: the negated goal is skolemised, every
+    universally quantified hypothesis is replaced by its instances at the ground terms (of the bound variables' sorts)
+    occurring in the obligation.  The hypotheses are thereby weakened: a model found here is a *candidate* counterexample
+    (reported as such), not a proof of violation."""
     try:
-        ground = [a for a in asserts if not _has_quant(a)]
-        terms = _ground_int_terms(ground)
+        import itertools
+        neg, sk = _skolemize_neg_goal(asserts[-1], None)
+        if _has_quant(neg):
+            return 'unknown', None
+        hyps = list(asserts[:-1])
+        ground = [a for a in hyps if not _has_quant(a)] + [neg]
         extra = []
-        for a in asserts:
-            if z3.is_quantifier(a) and a.is_forall() and a.num_vars() == 1 and a.var_sort(0) == z3.IntSort():
-                for t in terms + [z3.IntVal(0)]:
-                    inst = z3.substitute_vars(a.body(), t)
-                    if not _has_quant(inst):
-                        extra.append(inst)
-        s = z3.Solver()
+        cache = {}
+        for a in hyps:
+            if not (z3.is_quantifier(a) and a.is_forall()):
+                continue
+            nv = a.num_vars()
+            if nv > 2:
+                continue
+            pools = []
+            for i in range(nv):
+                srt = a.var_sort(i)
+                key = str(srt)
+                if key not in cache:
+                    cache[key] = _ground_terms(ground, srt) + ([z3.IntVal(0, srt.ctx)] if srt.kind() == z3.Z3_INT_SORT else [])
+                pools.append(cache[key])
+            count = 0
+            for combo in itertools.product(*pools):
+                inst = z3.substitute_vars(a.body(), *reversed(combo))
+                if not _has_quant(inst):
+                    extra.append(inst)
+                count += 1
+                if count > 150:
+                    break
+        s = z3.Solver(ctx=asserts[-1].ctx)
         s.set('timeout', timeout_ms)
         s.add(*ground)
         s.add(*extra)
@@ -214,37 +286,50 @@ def solve_forked(args):
     o = _OBLIGS[idx]
     try:
         t0 = time.time()
-        asserts = _assertions(o)
+        # a fresh z3 context per obligation: the verdict does not depend on which queries this worker solved before
+        zc = z3.Context()
+        asserts = [a.translate(zc) for a in _assertions(o)]
         try:
             last = z3.simplify(asserts[-1], som=True, arith_lhs=True)
             if z3.is_false(last):
                 return str(idx), 'unsat', 'z3-5.1.0(api)', (time.time() - t0) * 1000, None, 'simplifier(som)'
         except z3.Z3Exception:
             pass
-        sa = z3.Solver()
+        sa = z3.Solver(ctx=zc)
         sa.set('timeout', min(5000, timeout_ms))
         sa.set('smt.arith.nl', False)
         sa.add(*asserts)
         if sa.check() == z3.unsat:
             return str(idx), 'unsat', 'z3-5.1.0(api)', (time.time() - t0) * 1000, None, 'linear abstraction'
-        s = z3.Solver()
-        s.set('timeout', timeout_ms)
-        s.add(*asserts)
-        r = s.check()
-        ms = (time.time() - t0) * 1000
-        if r == z3.unsat:
-            return str(idx), 'unsat', 'z3-5.1.0(api)', ms, None, ''
-        if r == z3.sat:
-            return str(idx), 'sat', 'z3-5.1.0(api)', ms, _model_dict(s.model()), ''
+        reason = ''
+        # main query; on `unknown` retried with other random seeds (quantifier instantiation is order sensitive)
+        for attempt, seed in enumerate((0, 7, 23)):
+            s = z3.Solver(ctx=zc)
+            s.set('timeout', timeout_ms)
+            if seed:
+                s.set('random_seed', seed)
+                s.set('smt.random_seed', seed)
+            s.add(*asserts)
+            r = s.check()
+            ms = (time.time() - t0) * 1000
+            if r == z3.unsat:
+                return str(idx), 'unsat', 'z3-5.1.0(api)', ms, None, '' if not attempt else 'seed %d' % seed
+            if r == z3.sat:
+                return str(idx), 'sat', 'z3-5.1.0(api)', ms, _model_dict(s.model()), ''
+            reason = s.reason_unknown()
+            if o.expect_sat:
+                break
+        if use_fallback:
+            name, r2, backend, ms2, model, reason2 = solve_text((str(idx), o.to_smt2(), min(timeout_ms, 20000), True, True))
+            if r2 in ('sat', 'unsat'):
+                return str(idx), r2, backend, (time.time() - t0) * 1000, model, reason2
+            reason = '%s | %s' % (reason, reason2)
         if not o.expect_sat:
-            r2, model2 = _instantiated_sat(asserts, min(timeout_ms, 20000))
-            if r2 == 'sat':
-                return (str(idx), 'sat', 'z3-5.1.0(api)', (time.time() - t0) * 1000, model2,
-                        'counter-model of the obligation with quantified hypotheses instantiated at its ground index terms')
-        if not use_fallback:
-            return str(idx), 'unknown', 'z3-5.1.0(api)', ms, None, s.reason_unknown()
-        name, r2, backend, ms2, model, reason = solve_text((str(idx), o.to_smt2(), timeout_ms, True, True))
-        return str(idx), r2, backend, ms + ms2, model, reason
+            r3, model3 = _instantiated_sat(asserts, min(timeout_ms, 20000))
+            if r3 == 'sat':
+                return (str(idx), 'sat', 'z3-5.1.0(api)', (time.time() - t0) * 1000, model3,
+                        'CANDIDATE counter-model: quantified hypotheses instantiated at the ground terms of the obligation')
+        return str(idx), 'unknown', 'z3-5.1.0(api)', (time.time() - t0) * 1000, None, reason
     except Exception as e:
         return str(idx), 'unknown', 'error', 0.0, None, 'solver error: %r' % (e,)
 
@@ -290,7 +375,7 @@ def discharge(obligs, timeout_ms=30000, procs=None, fallback=True):
     else:
         ctx = multiprocessing.get_context('fork')
         with ctx.Pool(procs) as pool:
-            results = pool.map(solve_forked, tasks, chunksize=4)
+            results = pool.map(solve_forked, tasks, chunksize=2)
     for (idx, r, backend, ms, model, reason) in results:
         o = obligs[int(idx)]
         o.backend = backend
